@@ -14,7 +14,7 @@ Exit status contract (DESIGN.md section 2):
   2  machinery fault (build error, TLC error, dead driver, canary accepted,
      unreproduced model counterexample, timeout) - never a verdict.
 """
-import json, os, re, shutil, subprocess, sys, tempfile, time, hashlib, random
+import json, os, re, shutil, subprocess, sys, tempfile, time, hashlib, random, threading
 
 ROOT = os.path.dirname(os.path.dirname(os.path.abspath(__file__)))
 REPO = os.environ.get("VERIF_REPO", "/repo")
@@ -82,6 +82,8 @@ class Ctx:
         self._falco = None
         self.quiet = False
         self.deferred_faults = []
+        self._tlc_lock = threading.Lock()
+        self._tlc_n = 0
 
     # ---------------------------------------------------------------- build
     def _harness_modfile(self):
@@ -138,7 +140,9 @@ class Ctx:
         defines: dict NAME -> TLA+ expression text, written into a generated
         module MC_<n> that EXTENDS <module>; the cfg gets CONSTANT lines NAME <- MCNAME.
         Returns TlcResult; behaviours printed by the spec are decoded to a jsonl file."""
-        n = len(self.tlc_runs) + 1
+        with self._tlc_lock:             # re-entrant: several TLC runs of one check may go on in parallel threads
+            self._tlc_n += 1
+            n = self._tlc_n
         d = os.path.join(self.work, "tlc_%d" % n)
         os.makedirs(d)
         specdir = os.path.join(ROOT, "spec")
@@ -227,12 +231,13 @@ class Ctx:
         res.error_text = "\n".join(errlines[:20])
         if simulate is not None and res.distinct == 0:
             res.distinct = res.generated
-        self.tlc_runs.append({"module": module, "cfg": cfg, "mode": "simulate" if simulate is not None else "bfs",
+        with self._tlc_lock:
+          self.states += res.distinct
+          self.transitions += res.generated
+          self.tlc_runs.append({"module": module, "cfg": cfg, "mode": "simulate" if simulate is not None else "bfs",
                               "generated": res.generated, "distinct": res.distinct, "behaviours": res.behaviours,
                               "violated": res.violated, "rc": res.rc, "wall_s": round(res.wall, 1),
                               "tag": tag, "cmd": " ".join(cmd)})
-        self.states += res.distinct
-        self.transitions += res.generated
         if res.rc == 124:
             raise MachineryFault("TLC timeout on %s (%ss)" % (module, timeout))
         if res.rc not in (0,) and not res.violated and not res.postcondition_failed:
